@@ -54,6 +54,13 @@ func (u *Unit) distinctAddr(a, b Term) bool {
 	if aAlloc && bAlloc {
 		return true
 	}
+	// parameters refer to objects that existed before the call; obj! atoms are
+	// allocated by the call
+	isParam := func(t Term) bool { return t.Op == "" && (strings.HasPrefix(t.A, "p_") || strings.HasPrefix(t.A, "fv_")) }
+	isObj := func(t Term) bool { return t.Op == "" && strings.HasPrefix(t.A, "obj!") }
+	if (isParam(a) && isObj(b)) || (isParam(b) && isObj(a)) {
+		return true
+	}
 	isFa := func(t Term) bool { return strings.HasPrefix(t.Op, "fa_") }
 	if (aAlloc && (isFa(b) || b.Op == "ia")) || (bAlloc && (isFa(a) || a.Op == "ia")) {
 		return true
@@ -187,6 +194,16 @@ func (u *Unit) clockFacts(v Term, t types.Type, depth int) {
 		u.Axiom(Le(App("aid", SInt, App("aobj", SV, v)), clock))
 	case *types.Slice:
 		u.Axiom(Le(App("aid", SInt, App("aobj", SV, App("sptr", SV, v))), clock))
+	case *types.Signature:
+		// a closure found in memory was created earlier, and so were the variables it captured
+		u.Axiom(Le(App("aid", SInt, App("aobj", SV, v)), clock))
+		for i := 0; i < 4; i++ {
+			fnm := fmt.Sprintf("clobind%d_V", i)
+			u.Fun(fnm, []Sort{SV}, SV)
+			u.Axiom(Le(App("aid", SInt, App("aobj", SV, App(fnm, SV, v))), clock))
+			// a captured variable is a whole object of its own, never a field or element
+			u.Axiom(Eq(App("akind", SInt, App(fnm, SV, v)), IntLit(0)))
+		}
 	case *types.Struct:
 		if v.Sort == SV {
 			return
@@ -194,7 +211,7 @@ func (u *Unit) clockFacts(v Term, t types.Type, depth int) {
 		si := u.P.TW.Struct(t)
 		for i := 0; i < tt.NumFields(); i++ {
 			switch tt.Field(i).Type().Underlying().(type) {
-			case *types.Pointer, *types.Map, *types.Chan, *types.Slice, *types.Struct:
+			case *types.Pointer, *types.Map, *types.Chan, *types.Slice, *types.Struct, *types.Signature:
 				u.clockFacts(u.Field(v, si, i), tt.Field(i).Type(), depth+1)
 			}
 		}
